@@ -267,6 +267,21 @@ class FactMap:
     def at(self, node):
         return self.facts.get(id(node), ())
 
+    def closed(self, node):
+        """the facts at node as a set of (text, polarity) in closed form (see sa.defuse): no local names."""
+        from .defuse import defuse
+        du = defuse(self.fn)
+        out = set()
+        for f in self.at(node):
+            try:
+                e = ast.parse(f[0], mode='eval').body
+            except SyntaxError:
+                out.add((f[0], f[1]))
+                continue
+            e, flip = canonical(du.closed(e))
+            out.add((ast.unparse(e), f[1] != flip))
+        return out
+
     def has(self, node, text, pol=True):
         return any(f[0] == text and f[1] == pol for f in self.at(node))
 
